@@ -1,6 +1,674 @@
-(* C07 — proofs. *)
+(* C07 — proofs: the hand-over invariant over all interleavings, and what follows from it. *)
 Require Import V.Lib V.C07_Model.
+From Coq Require Import Arith PeanoNat.
 Open Scope nat_scope.
 
-Lemma placeholder_init_owner : forall a0 b, owner (init a0 b) = 0.
-Proof. reflexivity. Qed.
+(* ---------------------------------------------------------------------------------- *)
+(* utilities *)
+
+Lemma mem_In x l : mem x l = true <-> In x l.
+Proof.
+  unfold mem. rewrite existsb_exists. split.
+  - intros (y & Hy & E). apply Nat.eqb_eq in E. subst y. exact Hy.
+  - intros H. exists x. split; [exact H | apply Nat.eqb_refl].
+Qed.
+
+Lemma mem_false x l : mem x l = false <-> ~ In x l.
+Proof.
+  split; intros H.
+  - intros HI. apply mem_In in HI. congruence.
+  - destruct (mem x l) eqn:E; [|reflexivity]. apply mem_In in E. contradiction.
+Qed.
+
+Lemma rem_In x y l : In y (rem x l) <-> In y l /\ y <> x.
+Proof.
+  unfold rem. rewrite filter_In. split; intros (H1 & H2); split; try exact H1.
+  - intros ->. rewrite Nat.eqb_refl in H2. discriminate.
+  - apply Bool.negb_true_iff. apply Nat.eqb_neq. intros E. apply H2. symmetry. exact E.
+Qed.
+
+Lemma nodupb_NoDup l : nodupb l = true -> NoDup l.
+Proof.
+  induction l as [|x r IH]; simpl; intros H; [constructor|].
+  apply andb_true_iff in H as (H1 & H2). constructor.
+  - apply Bool.negb_true_iff in H1. apply mem_false in H1. exact H1.
+  - apply IH. exact H2.
+Qed.
+
+Lemma isnil_true {A} (l : list A) : isnil l = true <-> l = [].
+Proof. destruct l; simpl; split; intros H; try reflexivity; discriminate. Qed.
+
+Lemma isnil_false {A} (l : list A) : isnil l = false <-> l <> [].
+Proof. destruct l; simpl; split; intros H; try reflexivity; try discriminate; congruence. Qed.
+
+Lemma upd_same {A} (f : nat -> A) a v : upd f a v a = v.
+Proof. unfold upd. rewrite Nat.eqb_refl. reflexivity. Qed.
+
+Lemma upd_other {A} (f : nat -> A) a v b : b <> a -> upd f a v b = f b.
+Proof. intros H. unfold upd. apply Nat.eqb_neq in H. rewrite H. reflexivity. Qed.
+
+Lemma set_nth_length {A} (l : list A) i v : length (set_nth l i v) = length l.
+Proof. revert i; induction l as [|x r IH]; intros [|i]; simpl; try reflexivity. rewrite IH. reflexivity. Qed.
+
+Lemma nth_error_set_nth {A} (l : list A) i v j :
+  nth_error (set_nth l i v) j =
+  if Nat.eqb i j then (match nth_error l j with Some _ => Some v | None => None end) else nth_error l j.
+Proof.
+  revert i j; induction l as [|x r IH]; intros [|i] [|j]; simpl; try reflexivity.
+  - destruct (Nat.eqb i j); reflexivity.
+  - apply IH.
+Qed.
+
+Lemma nth_error_app_last {A} (l : list A) x k y :
+  nth_error (l ++ [x]) k = Some y -> nth_error l k = Some y \/ (k = length l /\ y = x).
+Proof.
+  intros H. destruct (Nat.lt_ge_cases k (length l)) as [Hl|Hl].
+  - rewrite nth_error_app1 in H by exact Hl. left. exact H.
+  - rewrite nth_error_app2 in H by exact Hl.
+    destruct (k - length l) as [|m] eqn:E; simpl in H.
+    + right. split; [lia | congruence].
+    + destruct m; discriminate.
+Qed.
+
+Lemma nth_app_lt {A} (l : list A) x d i : i < length l -> nth i (l ++ [x]) d = nth i l d.
+Proof. intros H. apply app_nth1. exact H. Qed.
+
+(* configurations of existing instances never change *)
+Lemma addrs_of_cfgs_app (cs : list (list nat * nat)) x i :
+  i < length cs -> fst (nth i (cs ++ [x]) ([], 0)) = fst (nth i cs ([], 0)).
+Proof. intros H. rewrite app_nth1 by exact H. reflexivity. Qed.
+
+Lemma nth_app_eq {A} (l : list A) x d : nth (length l) (l ++ [x]) d = x.
+Proof. rewrite app_nth2 by lia. rewrite Nat.sub_diag. reflexivity. Qed.
+
+Lemma nth_app_gt {A} (l : list A) x d i : length l < i -> nth i (l ++ [x]) d = d.
+Proof. intros H. apply nth_overflow. rewrite app_length. simpl. lia. Qed.
+
+(* ---------------------------------------------------------------------------------- *)
+(* the invariant *)
+
+Definition new_ok (s : state) (n : nat) : Prop := S n = length (cfgs s) /\ cur s < n.
+
+Definition phase_inv (s : state) : Prop :=
+  match rst s with
+  | RIdle => True
+  | RLoad n => new_ok s n
+  | RListen n todo => new_ok s n /\ incl todo (addrs_of s n) /\ fate_of s n <> 1 /\
+       (forall a, In a (addrs_of s n) -> ~ In a todo -> In n (fdh s a))
+  | RSpawn n todo => new_ok s n /\ incl todo (addrs_of s n) /\ fate_of s n = 0 /\
+       (forall a, In a (addrs_of s n) -> In n (fdh s a)) /\
+       (forall a, In a (addrs_of s n) -> ~ In a todo -> In n (acc s a))
+  | RStop n todo => new_ok s n /\ NoDup todo /\ incl todo (addrs_of s (cur s)) /\ fate_of s n = 0 /\
+       (forall a, In a (addrs_of s n) -> In n (fdh s a) /\ In n (acc s a))
+  end.
+
+(* the old instance still holds its descriptor and acceptor at [a] *)
+Definition old_live (s : state) (a : nat) : Prop :=
+  match rst s with RStop _ todo => In a todo | _ => True end.
+
+Definition is_new (s : state) (i : nat) : Prop :=
+  match rst s with RSpawn n _ | RStop n _ => i = n | _ => False end.
+
+Record Inv (s : state) : Prop := {
+  i_cur : cur s < length (cfgs s);
+  i_nodup : forall i, NoDup (addrs_of s i);
+  i_phase : phase_inv s;
+  i_old : forall a, In a (addrs_of s (cur s)) -> old_live s a ->
+                    In (cur s) (fdh s a) /\ In (cur s) (acc s a);
+  i_acc : forall a i, In i (acc s a) ->
+                    In i (fdh s a) /\ In a (addrs_of s i) /\ (i = cur s /\ old_live s a \/ is_new s i);
+  i_conn : forall k c, nth_error (conns s) k = Some c ->
+             cborn c <= cur s /\
+             (forall i, accepted_by (cst c) = Some i ->
+                        cborn c <= i /\ i < length (cfgs s) /\ In (caddr c) (addrs_of s i)) /\
+             (cst c = CQueued -> fdh s (caddr c) <> [])
+}.
+
+Lemma inv_init a0 blocked : nodupb a0 = true -> Inv (init a0 blocked).
+Proof.
+  intros Hnd. constructor; simpl.
+  - lia.
+  - intros i. unfold addrs_of. simpl. destruct i as [|[|i]]; simpl; try constructor. apply nodupb_NoDup. exact Hnd.
+  - exact I.
+  - unfold addrs_of, old_live. simpl. intros a Ha _. apply mem_In in Ha. rewrite Ha. simpl. auto.
+  - unfold addrs_of, old_live, is_new. simpl. intros a i Hi.
+    destruct (mem a a0) eqn:E; simpl in Hi; [|contradiction].
+    destruct Hi as [<-|[]]. simpl. split; [auto|]. split; [apply mem_In; exact E|]. left. auto.
+  - intros k c H. destruct k; discriminate.
+Qed.
+
+Ltac dmatch H :=
+  repeat match type of H with
+  | match ?x with _ => _ end = Some _ => let E := fresh "E" in destruct x eqn:E; try discriminate H
+  | (if ?b then _ else _) = Some _ => let E := fresh "E" in destruct b eqn:E; try discriminate H
+  end.
+
+(* bookkeeping of conns under a pointwise state change of connection k *)
+Lemma conn_upd_inv (s : state) (cs' : list conn) k c x :
+  nth_error (conns s) k = Some c ->
+  cs' = set_nth (conns s) k (set_st c x) ->
+  forall k' c', nth_error cs' k' = Some c' ->
+    (k' = k /\ c' = set_st c x) \/ (k' <> k /\ nth_error (conns s) k' = Some c').
+Proof.
+  intros Hk -> k' c' H. rewrite nth_error_set_nth in H.
+  destruct (Nat.eqb k k') eqn:E.
+  - apply Nat.eqb_eq in E. subst k'. rewrite Hk in H. left. split; [reflexivity|congruence].
+  - apply Nat.eqb_neq in E. right. split; [congruence | exact H].
+Qed.
+
+Lemma inv_step s l s' : Inv s -> step s l = Some s' -> Inv s'.
+Proof.
+  intros [Hcur Hnd Hph Hold Hacc Hconn] H.
+  destruct l; unfold step in H.
+  - (* LCall *)
+    dmatch H. injection H as <-.
+    assert (Hadd : forall i, i < length (cfgs s) ->
+              nth i (cfgs s ++ [(addrs, fate)]) ([], 0) = nth i (cfgs s) ([], 0)).
+    { intros i Hi. apply app_nth1. exact Hi. }
+    unfold phase_inv, old_live, is_new, addrs_of, fate_of in *. rewrite E in *.
+    constructor; simpl; unfold phase_inv, old_live, is_new, addrs_of, fate_of, new_ok; simpl.
+    + rewrite app_length. simpl. lia.
+    + intros i. destruct (Nat.lt_trichotomy i (length (cfgs s))) as [Hi|[Hi|Hi]].
+      * rewrite Hadd by exact Hi. apply Hnd.
+      * subst i. rewrite nth_app_eq. simpl. apply nodupb_NoDup. exact E0.
+      * rewrite nth_app_gt by exact Hi. constructor.
+    + rewrite app_length. simpl. split; lia.
+    + rewrite Hadd by exact Hcur. intros a Ha _. apply Hold; auto.
+    + intros a i Hi. destruct (Hacc a i Hi) as (H1 & H2 & [[-> _]|[]]).
+      rewrite Hadd by exact Hcur. auto.
+    + intros k c Hk. destruct (Hconn k c Hk) as (H1 & H2 & H3). split; [exact H1|]. split; [|exact H3].
+      intros i Hi. destruct (H2 i Hi) as (Ha & Hb & Hc). rewrite app_length. simpl.
+      rewrite Hadd by exact Hb. repeat split; try lia; assumption.
+  - (* LLoadFail *)
+    dmatch H. injection H as <-.
+    unfold phase_inv, old_live, is_new in *. rewrite E in *.
+    constructor; simpl; unfold phase_inv, old_live, is_new; simpl; auto.
+    all: try (intros a i Hi; destruct (Hacc a i Hi) as (H1 & H2 & [[-> _]|[]]); auto).
+  - (* LLoadOk *)
+    dmatch H. injection H as <-.
+    unfold phase_inv, old_live, is_new in *. rewrite E in *.
+    constructor; simpl; unfold phase_inv, old_live, is_new; simpl; auto.
+    + split; [exact Hph|]. split; [apply incl_refl|]. split.
+      * apply Nat.eqb_neq. exact E0.
+      * intros a Ha Hn. contradiction.
+  - (* LDup *)
+    dmatch H. injection H as <-. rename n0 into a.
+    unfold phase_inv, old_live, is_new in *. rewrite E in *.
+    destruct Hph as (Hn & Hincl & Hfate & Hfd).
+    assert (Hsup : forall x b, In x (fdh s b) -> In x (upd (fdh s) a (n :: fdh s a) b)).
+    { intros x b Hx. destruct (Nat.eq_dec b a) as [->|Hne].
+      - rewrite upd_same. right. exact Hx.
+      - rewrite upd_other by exact Hne. exact Hx. }
+    constructor; simpl; unfold phase_inv, old_live, is_new; simpl; auto.
+    + split; [exact Hn|]. split; [intros x Hx; apply Hincl; right; exact Hx|]. split; [exact Hfate|].
+      intros b Hb Hnt. destruct (Nat.eq_dec b a) as [->|Hne].
+      * rewrite upd_same. left. reflexivity.
+      * apply Hsup. apply Hfd; [exact Hb|]. intros [Hx|Hx]; [congruence|contradiction].
+    + intros b Hb _. destruct (Hold b Hb I) as (H1 & H2). split; [apply Hsup; exact H1|exact H2].
+    + intros b i Hi. destruct (Hacc b i Hi) as (H1 & H2 & H3). split; [apply Hsup; exact H1|]. auto.
+    + intros k c Hk. destruct (Hconn k c Hk) as (H1 & H2 & H3). split; [exact H1|]. split; [exact H2|].
+      intros Hq Hnil. specialize (H3 Hq). destruct (fdh s (caddr c)) as [|y r] eqn:Ef; [congruence|].
+      assert (Hy : In y (upd (fdh s) a (n :: fdh s a) (caddr c))) by (apply Hsup; rewrite Ef; left; reflexivity).
+      rewrite Hnil in Hy. contradiction.
+  - (* LBind *)
+    dmatch H. injection H as <-. rename n0 into a.
+    apply andb_true_iff in E1 as (E1 & Eext). apply andb_true_iff in E1 as (Enm & Enil).
+    apply isnil_true in Enil.
+    unfold phase_inv, old_live, is_new in *. rewrite E in *.
+    destruct Hph as (Hn & Hincl & Hfate & Hfd).
+    assert (Hsup : forall x b, In x (fdh s b) -> In x (upd (fdh s) a [n] b)).
+    { intros x b Hx. destruct (Nat.eq_dec b a) as [->|Hne].
+      - rewrite Enil in Hx. contradiction.
+      - rewrite upd_other by exact Hne. exact Hx. }
+    constructor; simpl; unfold phase_inv, old_live, is_new; simpl; auto.
+    + split; [exact Hn|]. split; [intros x Hx; apply Hincl; right; exact Hx|]. split; [exact Hfate|].
+      intros b Hb Hnt. destruct (Nat.eq_dec b a) as [->|Hne].
+      * rewrite upd_same. left. reflexivity.
+      * apply Hsup. apply Hfd; [exact Hb|]. intros [Hx|Hx]; [congruence|contradiction].
+    + intros b Hb _. destruct (Hold b Hb I) as (H1 & H2). split; [apply Hsup; exact H1|exact H2].
+    + intros b i Hi. destruct (Hacc b i Hi) as (H1 & H2 & H3). split; [apply Hsup; exact H1|]. auto.
+    + intros k c Hk. destruct (Hconn k c Hk) as (H1 & H2 & H3). split; [exact H1|]. split; [exact H2|].
+      intros Hq Hnil. specialize (H3 Hq). destruct (fdh s (caddr c)) as [|y r] eqn:Ef; [congruence|].
+      assert (Hy : In y (upd (fdh s) a [n] (caddr c))) by (apply Hsup; rewrite Ef; left; reflexivity).
+      rewrite Hnil in Hy. contradiction.
+  - (* LListenFail *)
+    dmatch H. injection H as <-.
+    unfold phase_inv, old_live, is_new in *. rewrite E in *.
+    constructor; simpl; unfold phase_inv, old_live, is_new; simpl; auto.
+    all: try (intros a i Hi; destruct (Hacc a i Hi) as (H1 & H2 & [[-> _]|[]]); auto).
+  - (* LAdv *)
+    dmatch H; injection H as <-.
+    + (* RListen n [] -> RSpawn *)
+      unfold phase_inv, old_live, is_new in *. rewrite E in *.
+      destruct Hph as (Hn & Hincl & Hfate & Hfd).
+      constructor; simpl; unfold phase_inv, old_live, is_new; simpl; auto.
+      * split; [exact Hn|]. split; [apply incl_refl|]. split; [apply Nat.eqb_eq; exact E1|]. split.
+        -- intros a Ha. apply Hfd; [exact Ha|]. intros [].
+        -- intros a Ha Hna. contradiction.
+      * intros a i Hi. destruct (Hacc a i Hi) as (H1 & H2 & [[-> _]|[]]). auto.
+    + (* RSpawn n [] -> RStop *)
+      unfold phase_inv, old_live, is_new in *. rewrite E in *.
+      destruct Hph as (Hn & Hincl & Hfate & Hfd & Hac).
+      constructor; simpl; unfold phase_inv, old_live, is_new; simpl; auto.
+      * split; [exact Hn|]. split; [apply Hnd|]. split; [apply incl_refl|]. split; [exact Hfate|].
+        intros a Ha. split; [apply Hfd; exact Ha | apply Hac; [exact Ha | intros []]].
+      * intros a i Hi. destruct (Hacc a i Hi) as (H1 & H2 & [[-> _] | -> ]); auto.
+  - (* LSpawn *)
+    dmatch H. injection H as <-. rename n0 into a.
+    unfold phase_inv, old_live, is_new in *. rewrite E in *.
+    destruct Hph as (Hn & Hincl & Hfate & Hfd & Hac).
+    constructor; simpl; unfold phase_inv, old_live, is_new; simpl; auto.
+    + split; [exact Hn|]. split; [intros x Hx; apply Hincl; right; exact Hx|]. split; [exact Hfate|].
+      split; [exact Hfd|].
+      intros b Hb Hnt. destruct (Nat.eq_dec b a) as [->|Hne].
+      * rewrite upd_same. left. reflexivity.
+      * rewrite upd_other by exact Hne. apply Hac; [exact Hb|]. intros [Hx|Hx]; [congruence|contradiction].
+    + intros b Hb _. destruct (Hold b Hb I) as (H1 & H2). split; [exact H1|].
+      destruct (Nat.eq_dec b a) as [->|Hne]; [rewrite upd_same; right; exact H2 | rewrite upd_other by exact Hne; exact H2].
+    + intros b i Hi. destruct (Nat.eq_dec b a) as [->|Hne].
+      * rewrite upd_same in Hi. destruct Hi as [<-|Hi].
+        -- split; [apply Hfd; apply Hincl; left; reflexivity|]. split; [apply Hincl; left; reflexivity|]. right. reflexivity.
+        -- destruct (Hacc a i Hi) as (H1 & H2 & H3). auto.
+      * rewrite upd_other in Hi by exact Hne. destruct (Hacc b i Hi) as (H1 & H2 & H3). auto.
+  - (* LStop *)
+    dmatch H. injection H as <-. rename n0 into a.
+    unfold phase_inv, old_live, is_new in *. rewrite E in *.
+    destruct Hph as (Hn & Hndt & Hincl & Hfate & Hnew).
+    destruct Hn as (Hn1 & Hn2).
+    inversion Hndt as [|x y Hnotin Hndl]; subst x y.
+    set (f := rem (cur s) (fdh s a)) in *.
+    (* facts that do not depend on the queue reset *)
+    assert (Hfd' : forall b x, In x (upd (fdh s) a f b) <-> (In x (fdh s b) /\ (b = a -> x <> cur s))).
+    { intros b x. destruct (Nat.eq_dec b a) as [->|Hne].
+      - rewrite upd_same. unfold f. rewrite rem_In. split; intros (H1 & H2); split; auto.
+      - rewrite upd_other by exact Hne. split; [intros H1; split; [exact H1|intros; contradiction] | intros (H1 & _); exact H1]. }
+    assert (Hac' : forall b x, In x (upd (acc s) a (rem (cur s) (acc s a)) b) <-> (In x (acc s b) /\ (b = a -> x <> cur s))).
+    { intros b x. destruct (Nat.eq_dec b a) as [->|Hne].
+      - rewrite upd_same. rewrite rem_In. split; intros (H1 & H2); split; auto.
+      - rewrite upd_other by exact Hne. split; [intros H1; split; [exact H1|intros; contradiction] | intros (H1 & _); exact H1]. }
+    assert (Hconn' : forall k c, nth_error
+              (conns (if isnil f
+                      then with_conns (with_acc (with_fdh s (upd (fdh s) a f)) (upd (acc s) a (rem (cur s) (acc s a))))
+                             (reset_queued a (conns s))
+                      else with_acc (with_fdh s (upd (fdh s) a f)) (upd (acc s) a (rem (cur s) (acc s a))))) k = Some c ->
+              cborn c <= cur s /\
+              (forall i, accepted_by (cst c) = Some i ->
+                         cborn c <= i /\ i < length (cfgs s) /\ In (caddr c) (addrs_of s i)) /\
+              (cst c = CQueued -> upd (fdh s) a f (caddr c) <> [])).
+    { intros k c Hk. destruct (isnil f) eqn:Enil; simpl in Hk.
+      - unfold reset_queued in Hk. rewrite nth_error_map in Hk.
+        destruct (nth_error (conns s) k) as [c0|] eqn:Ek; [|discriminate]. simpl in Hk. injection Hk as <-.
+        destruct (Hconn k c0 Ek) as (H1 & H2 & H3).
+        destruct (cst c0) eqn:Ec; try (rewrite Ec; split; [exact H1|]; split; [exact H2|]; intros; discriminate).
+        destruct (Nat.eqb (caddr c0) a) eqn:Ea.
+        + simpl. split; [exact H1|]. split; [intros i Hi; discriminate | intros; discriminate].
+        + rewrite Ec. split; [exact H1|]. split; [exact H2|]. intros _.
+          apply Nat.eqb_neq in Ea. rewrite upd_other by exact Ea. apply H3. reflexivity.
+      - destruct (Hconn k c Hk) as (H1 & H2 & H3). split; [exact H1|]. split; [exact H2|].
+        intros Hq. destruct (Nat.eq_dec (caddr c) a) as [->|Hne].
+        + rewrite upd_same. apply isnil_false. exact Enil.
+        + rewrite upd_other by exact Hne. apply H3. exact Hq. }
+    assert (Hcommon : forall st',
+              fdh st' = upd (fdh s) a f -> acc st' = upd (acc s) a (rem (cur s) (acc s a)) ->
+              cfgs st' = cfgs s -> cur st' = cur s -> rst st' = RStop n l ->
+              (forall k c, nth_error (conns st') k = Some c ->
+                 cborn c <= cur s /\
+                 (forall i, accepted_by (cst c) = Some i ->
+                            cborn c <= i /\ i < length (cfgs s) /\ In (caddr c) (addrs_of s i)) /\
+                 (cst c = CQueued -> upd (fdh s) a f (caddr c) <> [])) ->
+              Inv st').
+    { intros st' Ef Ea Ec Eu Er Hc.
+      constructor; unfold phase_inv, old_live, is_new, addrs_of, fate_of, new_ok in *;
+        rewrite ?Ef, ?Ea, ?Ec, ?Eu, ?Er.
+      - exact Hcur.
+      - exact Hnd.
+      - split; [split; assumption|]. split; [exact Hndl|]. split; [intros x Hx; apply Hincl; right; exact Hx|].
+        split; [exact Hfate|]. intros b Hb. destruct (Hnew b Hb) as (H1 & H2).
+        split; [apply Hfd' | apply Hac']; (split; [assumption | intros _; lia]).
+      - intros b Hb Hbl. assert (Hne : b <> a) by (intros ->; contradiction).
+        destruct (Hold b Hb (or_intror Hbl)) as (H1 & H2).
+        split; [apply Hfd' | apply Hac']; (split; [assumption | intros; contradiction]).
+      - intros b i Hi. apply Hac' in Hi as (Hi & Hia).
+        destruct (Hacc b i Hi) as (H1 & H2 & H3).
+        split; [apply Hfd'; split; [exact H1 | exact Hia]|]. split; [exact H2|].
+        destruct H3 as [[-> Hbl] | -> ]; [|right; reflexivity].
+        left. split; [reflexivity|]. destruct Hbl as [<-|Hbl]; [|exact Hbl].
+        exfalso. apply Hia; reflexivity.
+      - exact Hc. }
+    destruct (isnil f) eqn:Enil; apply Hcommon; try reflexivity; exact Hconn'.
+  - (* LReturn *)
+    dmatch H. injection H as <-.
+    unfold phase_inv, old_live, is_new in *. rewrite E in *.
+    destruct Hph as ((Hn1 & Hn2) & Hndt & Hincl & Hfate & Hnew).
+    constructor; simpl; unfold phase_inv, old_live, is_new; simpl; auto.
+    + lia.
+    + intros a i Hi. destruct (Hacc a i Hi) as (H1 & H2 & [[-> []] | -> ]). auto.
+    + intros k c Hk. destruct (Hconn k c Hk) as (H1 & H2 & H3). split; [lia|]. auto.
+  - (* LNew *)
+    injection H as <-.
+    unfold phase_inv, old_live, is_new in *.
+    constructor; simpl; unfold phase_inv, old_live, is_new; simpl; auto.
+    intros k c Hk. apply nth_error_app_last in Hk as [Hk|(-> & ->)]; [apply Hconn in Hk; exact Hk|].
+    simpl. split; [lia|]. split; intros; discriminate.
+  - (* LConnect *)
+    dmatch H. injection H as <-.
+    unfold phase_inv, old_live, is_new in *.
+    constructor; simpl; unfold phase_inv, old_live, is_new; simpl; auto.
+    intros k' c' Hk'.
+    eapply conn_upd_inv in Hk' as [(-> & ->)|(Hne & Hk')]; [| |exact E|reflexivity]; [|apply Hconn in Hk'; exact Hk'].
+    destruct (Hconn k c E) as (H1 & H2 & H3). simpl. split; [exact H1|].
+    destruct (isnil (fdh s (caddr c))) eqn:En; simpl; split; try (intros; discriminate).
+    intros _. apply isnil_false. exact En.
+  - (* LAccept *)
+    dmatch H. injection H as <-.
+    apply mem_In in E1.
+    destruct (Hacc (caddr c) i E1) as (Hf & Had & Hwho).
+    destruct (Hconn k c E) as (H1 & H2 & H3).
+    assert (Hi : cur s <= i /\ i < length (cfgs s)).
+    { destruct Hwho as [[-> _]|Hnew]; [lia|].
+      unfold is_new, phase_inv, new_ok in *. destruct (rst s); try contradiction; subst i.
+      - destruct Hph as ((Ha & Hb) & _). lia.
+      - destruct Hph as ((Ha & Hb) & _). lia. }
+    unfold phase_inv, old_live, is_new in *.
+    constructor; simpl; unfold phase_inv, old_live, is_new; simpl; auto.
+    intros k' c' Hk'.
+    eapply conn_upd_inv in Hk' as [(-> & ->)|(Hne & Hk')]; [| |exact E|reflexivity]; [|apply Hconn in Hk'; exact Hk'].
+    simpl. split; [exact H1|]. split; [|intros; discriminate].
+    intros j Hj. injection Hj as <-. repeat split; try lia. exact Had.
+  - (* LAnswer *)
+    dmatch H. injection H as <-.
+    destruct (Hconn k c E) as (H1 & H2 & H3).
+    unfold phase_inv, old_live, is_new in *.
+    constructor; simpl; unfold phase_inv, old_live, is_new; simpl; auto.
+    intros k' c' Hk'.
+    eapply conn_upd_inv in Hk' as [(-> & ->)|(Hne & Hk')]; [| |exact E|reflexivity]; [|apply Hconn in Hk'; exact Hk'].
+    simpl. split; [exact H1|]. split; [|intros; discriminate].
+    intros j Hj. apply H2. rewrite E0. exact Hj.
+  - (* LRecv *)
+    dmatch H; injection H as <-;
+    destruct (Hconn k c E) as (H1 & H2 & H3);
+    unfold phase_inv, old_live, is_new in *;
+    (constructor; simpl; unfold phase_inv, old_live, is_new; simpl; auto);
+    intros k' c' Hk';
+    (eapply conn_upd_inv in Hk' as [(-> & ->)|(Hne & Hk')]; [| |exact E|reflexivity]; [|apply Hconn in Hk'; exact Hk']);
+    simpl; (split; [exact H1|]); (split; [|intros; discriminate]);
+    intros j Hj; try discriminate; apply H2; rewrite E0; exact Hj.
+  - (* LObs *)
+    injection H as <-.
+    unfold phase_inv, old_live, is_new in *.
+    constructor; simpl; unfold phase_inv, old_live, is_new; simpl; auto.
+Qed.
+
+Lemma inv_run s ls s' : Inv s -> run s ls = Some s' -> Inv s'.
+Proof.
+  revert s; induction ls as [|l r IH]; simpl; intros s Hi H.
+  - injection H as <-. exact Hi.
+  - destruct (step s l) as [s1|] eqn:E; [|discriminate]. eapply IH; [eapply inv_step; eauto | exact H].
+Qed.
+
+Lemma inv_reachable s : reachable s -> Inv s.
+Proof. intros (a0 & b & ls & Hnd & Hr). eapply inv_run; [apply inv_init; exact Hnd | exact Hr]. Qed.
+
+(* ---------------------------------------------------------------------------------- *)
+(* consequences *)
+
+(* T1/T3: every address of the configuration whose service is guaranteed has its socket open
+   (a descriptor held by that very instance) and a committed acceptor of that instance *)
+Lemma owner_serves s a :
+  reachable s -> In a (addrs_of s (owner s)) ->
+  In (owner s) (fdh s a) /\ In (owner s) (acc s a).
+Proof.
+  intros Hr Ha. apply inv_reachable in Hr. destruct Hr as [Hcur Hnd Hph Hold Hacc Hconn].
+  unfold owner, phase_inv, old_live in *. destruct (rst s) eqn:E; try (apply Hold; [exact Ha | exact I]).
+  destruct Hph as (_ & _ & _ & _ & Hnew). apply Hnew. exact Ha.
+Qed.
+
+Lemma socket_never_closed s a :
+  reachable s -> In a (addrs_of s (owner s)) -> fdh s a <> [].
+Proof.
+  intros Hr Ha Hn. destruct (owner_serves s a Hr Ha) as (H1 & _). rewrite Hn in H1. contradiction.
+Qed.
+
+Lemma always_an_acceptor s a :
+  reachable s -> In a (addrs_of s (owner s)) -> exists i, In i (acc s a) /\ In i (fdh s a) /\ In a (addrs_of s i).
+Proof.
+  intros Hr Ha. destruct (owner_serves s a Hr Ha) as (H1 & H2). exists (owner s). auto.
+Qed.
+
+(* the socket bound to a served address is never replaced: [sid] only changes in LBind, which
+   needs the address to have no socket at all *)
+Lemma sid_step s l s' a :
+  step s l = Some s' -> sid s' a <> sid s a -> l = LBind /\ fdh s a = [] /\ ~ In a (addrs_of s (cur s)).
+Proof.
+  intros H Hne. destruct l; unfold step in H; dmatch H; try (injection H as <-; simpl in Hne; congruence).
+  - (* LBind *)
+    injection H as <-. simpl in Hne.
+    apply andb_true_iff in E1 as (E1 & _). apply andb_true_iff in E1 as (Enm & Enil).
+    destruct (Nat.eq_dec a n0) as [->|Hd]; [|rewrite upd_other in Hne by exact Hd; congruence].
+    split; [reflexivity|]. split; [apply isnil_true; exact Enil|].
+    apply Bool.negb_true_iff in Enm. apply mem_false. exact Enm.
+  - (* LStop with reset *)
+    injection H as <-. destruct (isnil (rem (cur s) (fdh s n0))); simpl in Hne; congruence.
+Qed.
+
+Lemma socket_never_rebound s l s' a :
+  reachable s -> step s l = Some s' -> In a (addrs_of s (owner s)) -> sid s' a = sid s a.
+Proof.
+  intros Hr H Ha. destruct (Nat.eq_dec (sid s' a) (sid s a)) as [E|E]; [exact E|].
+  destruct (sid_step s l s' a H E) as (_ & Hnil & _).
+  exfalso. exact (socket_never_closed s a Hr Ha Hnil).
+Qed.
+
+Lemma reachable_step s l s' : reachable s -> step s l = Some s' -> reachable s'.
+Proof.
+  intros (a0 & b & ls & Hnd & Hr) H. exists a0, b, (ls ++ [l]). split; [exact Hnd|].
+  clear Hnd. revert Hr. generalize (init a0 b). induction ls as [|x r IH]; simpl; intros s0 Hr.
+  - injection Hr as ->. rewrite H. reflexivity.
+  - destruct (step s0 x); [apply IH; exact Hr | discriminate].
+Qed.
+
+Lemma reachable_run s ls s' : reachable s -> run s ls = Some s' -> reachable s'.
+Proof.
+  revert s; induction ls as [|l r IH]; simpl; intros s Hr H.
+  - injection H as <-. exact Hr.
+  - destruct (step s l) as [s1|] eqn:E; [|discriminate]. eapply IH; [eapply reachable_step; eauto | exact H].
+Qed.
+
+(* along any run during which the address stays served, the socket is the same one *)
+Fixpoint served_along (a : nat) (s : state) (ls : list label) : Prop :=
+  In a (addrs_of s (owner s)) /\
+  match ls with
+  | [] => True
+  | l :: r => match step s l with Some s' => served_along a s' r | None => True end
+  end.
+
+Lemma socket_identity_along_run a ls : forall s s',
+  reachable s -> run s ls = Some s' -> served_along a s ls ->
+  sid s' a = sid s a /\ fdh s' a <> [].
+Proof.
+  induction ls as [|l r IH]; simpl; intros s s' Hr H (Ha & Hs).
+  - injection H as <-. split; [reflexivity | apply socket_never_closed; assumption].
+  - destruct (step s l) as [s1|] eqn:E; [|discriminate].
+    destruct (IH s1 s' (reachable_step _ _ _ Hr E) H Hs) as (H1 & H2).
+    split; [|exact H2]. rewrite H1. eapply socket_never_rebound; eauto.
+Qed.
+
+(* T9: only the instance in force and the one being started ever accept; an instance whose
+   start failed never does *)
+Lemma only_live_instances_accept s a i :
+  reachable s -> In i (acc s a) ->
+  In i (fdh s a) /\ In a (addrs_of s i) /\ (i = cur s \/ pending s = Some i /\ fate_of s i = 0).
+Proof.
+  intros Hr Hi. apply inv_reachable in Hr. destruct Hr as [Hcur Hnd Hph Hold Hacc Hconn].
+  destruct (Hacc a i Hi) as (H1 & H2 & H3). split; [exact H1|]. split; [exact H2|].
+  destruct H3 as [[-> _]|H3]; [left; reflexivity|]. right.
+  unfold is_new, pending, phase_inv in *. destruct (rst s); try contradiction; subst i.
+  - destruct Hph as (_ & _ & Hf & _). auto.
+  - destruct Hph as (_ & _ & _ & Hf & _). auto.
+Qed.
+
+(* T4: a connection to a served address is never refused, never reset, and can always be taken *)
+Lemma connect_not_refused s k c s' :
+  reachable s -> nth_error (conns s) k = Some c -> In (caddr c) (addrs_of s (owner s)) ->
+  step s (LConnect k) = Some s' ->
+  exists c', nth_error (conns s') k = Some c' /\ cst c' = CQueued /\ caddr c' = caddr c /\ csite c' = csite c.
+Proof.
+  intros Hr Hk Ha H. unfold step in H. rewrite Hk in H. destruct (cst c) eqn:Ec; try discriminate.
+  injection H as <-. simpl. rewrite nth_error_set_nth, Nat.eqb_refl, Hk.
+  eexists. split; [reflexivity|]. simpl.
+  destruct (isnil (fdh s (caddr c))) eqn:En; [|auto].
+  apply isnil_true in En. exfalso. exact (socket_never_closed s _ Hr Ha En).
+Qed.
+
+Lemma queued_never_reset s l s' k c :
+  reachable s -> step s l = Some s' -> nth_error (conns s) k = Some c -> cst c = CQueued ->
+  In (caddr c) (addrs_of s' (owner s')) ->
+  exists c', nth_error (conns s') k = Some c' /\ caddr c' = caddr c /\ csite c' = csite c /\
+             cst c' <> CReset /\ cst c' <> CRefused /\
+             (cst c' = CFailed -> False).
+Proof.
+  intros Hr H Hk Hq Ha.
+  assert (Hr' := reachable_step _ _ _ Hr H).
+  assert (Hkeep : forall cs, cs = conns s -> exists c', nth_error cs k = Some c' /\ caddr c' = caddr c /\
+            csite c' = csite c /\ cst c' <> CReset /\ cst c' <> CRefused /\ (cst c' = CFailed -> False)).
+  { intros cs ->. exists c. rewrite Hq. repeat split; try assumption; try discriminate. }
+  assert (Hset : forall k0 c0 x, nth_error (conns s) k0 = Some c0 ->
+            (k0 = k -> x <> CReset /\ x <> CRefused /\ x <> CFailed) ->
+            exists c', nth_error (set_nth (conns s) k0 (set_st c0 x)) k = Some c' /\ caddr c' = caddr c /\
+            csite c' = csite c /\ cst c' <> CReset /\ cst c' <> CRefused /\ (cst c' = CFailed -> False)).
+  { intros k0 c0 x Hk0 Hx. rewrite nth_error_set_nth. destruct (Nat.eqb k0 k) eqn:Ek.
+    - apply Nat.eqb_eq in Ek. subst k0. rewrite Hk in *. injection Hk0 as <-.
+      destruct (Hx eq_refl) as (X1 & X2 & X3). eexists. split; [reflexivity|]. simpl. auto.
+    - apply Hkeep. reflexivity. }
+  destruct l; unfold step in H; dmatch H; try (injection H as <-; simpl; apply Hkeep; reflexivity).
+  - (* LStop *)
+    injection H as <-. rename n0 into a0.
+    destruct (isnil (rem (cur s) (fdh s a0))) eqn:Enil; simpl; [|apply Hkeep; reflexivity].
+    unfold reset_queued. rewrite nth_error_map, Hk. simpl. rewrite Hq.
+    destruct (Nat.eqb (caddr c) a0) eqn:Ea.
+    + exfalso. apply Nat.eqb_eq in Ea. subst a0.
+      apply (socket_never_closed _ _ Hr' Ha). simpl.
+      rewrite upd_same. apply isnil_true. exact Enil.
+    + eexists. split; [reflexivity|]. rewrite Hq. repeat split; discriminate.
+  - (* LNew *)
+    injection H as <-. simpl. rewrite nth_error_app1 by (apply nth_error_Some; congruence).
+    apply Hkeep. reflexivity.
+  - (* LConnect *)
+    injection H as <-. simpl. apply Hset; [exact E|]. intros ->. rewrite Hk in E. injection E as <-. congruence.
+  - (* LAccept *)
+    injection H as <-. simpl. apply Hset; [exact E|]. intros _. repeat split; discriminate.
+  - (* LAnswer *)
+    injection H as <-. simpl. apply Hset; [exact E|]. intros _. repeat split; discriminate.
+  - (* LRecv, timeout of a queued connection: needs no acceptor, but the owner has one *)
+    injection H as <-. simpl. destruct (Nat.eq_dec k0 k) as [->|Hne].
+    + exfalso. rewrite Hk in E. injection E as <-.
+      simpl in Ha. unfold owner, addrs_of in Ha. simpl in Ha.
+      destruct (owner_serves s (caddr c) Hr Ha) as (_ & Hin).
+      apply isnil_true in E1. rewrite E1 in Hin. contradiction.
+    + apply Hset; [exact E|]. intros; contradiction.
+  - injection H as <-. simpl. apply Hset; [exact E|]. intros ->. rewrite Hk in E. injection E as <-. congruence.
+  - injection H as <-. simpl. apply Hset; [exact E|]. intros ->. rewrite Hk in E. injection E as <-. congruence.
+  - injection H as <-. simpl. apply Hset; [exact E|]. intros ->. rewrite Hk in E. injection E as <-. congruence.
+Qed.
+
+Lemma queued_can_be_accepted s k c :
+  reachable s -> nth_error (conns s) k = Some c -> cst c = CQueued -> In (caddr c) (addrs_of s (owner s)) ->
+  exists s', step s (LAccept k (owner s)) = Some s'.
+Proof.
+  intros Hr Hk Hq Ha. destruct (owner_serves s _ Hr Ha) as (_ & Hin).
+  unfold step. rewrite Hk, Hq. apply mem_In in Hin. rewrite Hin. eexists. reflexivity.
+Qed.
+
+(* T5: one instance per connection, its own configuration, the right address *)
+Lemma accepted_stable_step s l s' k c i :
+  step s l = Some s' -> nth_error (conns s) k = Some c -> accepted_by (cst c) = Some i ->
+  exists c', nth_error (conns s') k = Some c' /\ accepted_by (cst c') = Some i /\
+             caddr c' = caddr c /\ csite c' = csite c /\ cborn c' = cborn c.
+Proof.
+  intros H Hk Hi.
+  assert (Hkeep : exists c', nth_error (conns s) k = Some c' /\ accepted_by (cst c') = Some i /\
+             caddr c' = caddr c /\ csite c' = csite c /\ cborn c' = cborn c) by (exists c; auto).
+  assert (Hset : forall k0 c0 x, nth_error (conns s) k0 = Some c0 ->
+            (k0 = k -> accepted_by x = Some i) ->
+            exists c', nth_error (set_nth (conns s) k0 (set_st c0 x)) k = Some c' /\ accepted_by (cst c') = Some i /\
+             caddr c' = caddr c /\ csite c' = csite c /\ cborn c' = cborn c).
+  { intros k0 c0 x Hk0 Hx. rewrite nth_error_set_nth. destruct (Nat.eqb k0 k) eqn:Ek.
+    - apply Nat.eqb_eq in Ek. subst k0. rewrite Hk in *. injection Hk0 as <-.
+      eexists. split; [reflexivity|]. simpl. auto.
+    - exact Hkeep. }
+  destruct l; unfold step in H; dmatch H; try (injection H as <-; simpl; exact Hkeep).
+  - injection H as <-. destruct (isnil (rem (cur s) (fdh s n0))); simpl; [|exact Hkeep].
+    unfold reset_queued. rewrite nth_error_map, Hk. simpl.
+    destruct (cst c) eqn:Ec; try discriminate; eexists; (split; [reflexivity|]); rewrite Ec; auto.
+  - injection H as <-. simpl. rewrite nth_error_app1 by (apply nth_error_Some; congruence). exact Hkeep.
+  - injection H as <-. simpl. apply Hset; [exact E|]. intros ->. rewrite Hk in E. injection E as <-. rewrite E0 in Hi. discriminate.
+  - injection H as <-. simpl. apply Hset; [exact E|]. intros ->. rewrite Hk in E. injection E as <-. rewrite E0 in Hi. discriminate.
+  - injection H as <-. simpl. apply Hset; [exact E|]. intros ->. rewrite Hk in E. injection E as <-. rewrite E0 in Hi. exact Hi.
+  - injection H as <-. simpl. apply Hset; [exact E|]. intros ->. rewrite Hk in E. injection E as <-. rewrite E0 in Hi. discriminate.
+  - injection H as <-. simpl. apply Hset; [exact E|]. intros ->. rewrite Hk in E. injection E as <-. rewrite E0 in Hi. discriminate.
+  - injection H as <-. simpl. apply Hset; [exact E|]. intros ->. rewrite Hk in E. injection E as <-. rewrite E0 in Hi. discriminate.
+  - injection H as <-. simpl. apply Hset; [exact E|]. intros ->. rewrite Hk in E. injection E as <-. rewrite E0 in Hi. exact Hi.
+Qed.
+
+Lemma one_instance_per_conn ls : forall s s' k c i,
+  run s ls = Some s' -> nth_error (conns s) k = Some c -> accepted_by (cst c) = Some i ->
+  exists c', nth_error (conns s') k = Some c' /\ accepted_by (cst c') = Some i /\
+             caddr c' = caddr c /\ csite c' = csite c.
+Proof.
+  induction ls as [|l r IH]; simpl; intros s s' k c i H Hk Hi.
+  - injection H as <-. exists c. auto.
+  - destruct (step s l) as [s1|] eqn:E; [|discriminate].
+    destruct (accepted_stable_step _ _ _ _ _ _ E Hk Hi) as (c1 & Hk1 & Hi1 & Ha1 & Hs1 & _).
+    destruct (IH s1 s' k c1 i H Hk1 Hi1) as (c' & X1 & X2 & X3 & X4).
+    exists c'. repeat split; try assumption; congruence.
+Qed.
+
+(* T6: a connection is only ever taken by the instance in force when it started or a later one,
+   and that instance serves the connection's address *)
+Lemma accepted_by_current_or_later s k c i :
+  reachable s -> nth_error (conns s) k = Some c -> accepted_by (cst c) = Some i ->
+  cborn c <= i /\ i < length (cfgs s) /\ In (caddr c) (addrs_of s i).
+Proof.
+  intros Hr Hk Hi. apply inv_reachable in Hr. destruct Hr as [_ _ _ _ _ Hconn].
+  destruct (Hconn k c Hk) as (_ & H2 & _). apply H2. exact Hi.
+Qed.
+
+(* ... the instance in force is the newest successfully started one: after a successful
+   Restart returned, [cur] is the new instance *)
+Lemma return_installs_new s s' :
+  reachable s -> step s LReturn = Some s' ->
+  exists n, pending s = Some n /\ cur s' = n /\ rst s' = RIdle /\ cur s < n /\ fate_of s n = 0 /\
+            (forall a, In a (addrs_of s' n) -> In n (fdh s' a) /\ In n (acc s' a)) /\
+            (forall a i, In i (acc s' a) -> i = n).
+Proof.
+  intros Hr H. assert (Hr' := reachable_step _ _ _ Hr H).
+  apply inv_reachable in Hr. destruct Hr as [Hcur Hnd Hph Hold Hacc Hconn].
+  unfold step in H. dmatch H. injection H as <-. simpl.
+  unfold phase_inv, pending in *. rewrite E in *. destruct Hph as ((Hn1 & Hn2) & _ & _ & Hf & Hnew).
+  exists n. repeat split; auto.
+  - apply Hnew. exact H.
+  - apply Hnew. exact H.
+  - intros a i Hi. destruct (Hacc a i Hi) as (_ & _ & [[_ Hl]|Hn]).
+    + unfold old_live in Hl. rewrite E in Hl. contradiction.
+    + unfold is_new in Hn. rewrite E in Hn. exact Hn.
+Qed.
+
+(* T7: a failed reload leaves the old instance exactly as it was *)
+Lemma failed_reload_keeps_old s l s' :
+  reachable s -> (l = LLoadFail \/ l = LListenFail) -> step s l = Some s' ->
+  cur s' = cur s /\ rst s' = RIdle /\ conns s' = conns s /\ cfgs s' = cfgs s /\
+  (forall a, sid s' a = sid s a /\ fdh s' a = fdh s a /\ acc s' a = acc s a) /\
+  (forall a, In a (addrs_of s' (cur s')) -> In (cur s') (fdh s' a) /\ In (cur s') (acc s' a)) /\
+  (forall a i, In i (acc s' a) -> i = cur s').
+Proof.
+  intros Hr Hl H. assert (Hr' := reachable_step _ _ _ Hr H).
+  assert (Hown : owner s' = cur s' /\ rst s' = RIdle /\ cur s' = cur s /\ conns s' = conns s /\ cfgs s' = cfgs s /\
+                 (forall a, sid s' a = sid s a /\ fdh s' a = fdh s a /\ acc s' a = acc s a)).
+  { destruct Hl as [-> | ->]; unfold step in H; dmatch H; injection H as <-; unfold owner; simpl; auto 10. }
+  destruct Hown as (Ho & Hi & Hc & Hcs & Hcf & Hsame).
+  repeat split; try assumption; try apply Hsame.
+  - rewrite <- Ho in H0 |- *. apply (owner_serves s' a Hr' H0).
+  - rewrite <- Ho in H0 |- *. apply (owner_serves s' a Hr' H0).
+  - intros a i Hin. destruct (only_live_instances_accept s' a i Hr' Hin) as (_ & _ & [E|(E & _)]); [exact E|].
+    unfold pending in E. rewrite Hi in E. discriminate.
+Qed.
